@@ -46,6 +46,20 @@ def clamp_summary(ctx, func, rule, remaining_text, max_text_class):
     return ps
 
 
+def request_released_before_notification(ctx, rule, f, table, cbs):
+    """The record of a finished request is taken out of the table BEFORE the completion callbacks run: the elements issue their
+    follow-up request from inside the callback (I2CElement reads the second part of the image, OWElement the elements after the
+    header), which is refused while the record of the finished one is still there.  Shared with C14."""
+    gf = cfg_of(f)
+    pops = [n for n, c in gf.find(lambda q: method_call(q, 'pop') and norm(q.func.value).startswith(table))]
+    pops += [n for n in gf.nodes if n.kind == 'stmt' and isinstance(n.ast, ast.Delete) and any(norm(t).startswith(table) for t in n.ast.targets)]
+    calls = gf.find(lambda q: isinstance(q, ast.Call) and norm(q.func) in cbs)
+    ctx.need(bool(calls), '%s: completion callbacks not found' % f.qualname)
+    for n, c in calls:
+        ctx.inst(rule, f, 'record-released-before-notification:' + norm(c.func), any(gf.dominates(p_, n) and p_ is not n for p_ in pops),
+                 '%s(..) runs while the finished request is still recorded in %s: a follow-up request made from inside the callback is refused' % (norm(c.func), table), line=c.lineno)
+
+
 def check(ctx):
     m = ctx.model
     rd = m.cls(ME, '_ReadRequest')
@@ -198,6 +212,8 @@ def check(ctx):
             ('_handle_chan_read', 'self._read_requests', 'self.mem_read_cb.call', 'self.mem_read_failed_cb.call', 'pop'),
             ('_handle_chan_write', 'self._write_requests', 'self.mem_write_cb.call', 'self.mem_write_failed_cb.call', 'pop')):
         f = mem.method(fname)
+        if fname == '_handle_chan_read':          # (writes queue behind the running one instead of being refused)
+            request_released_before_notification(ctx, 'R4', f, table, (okcb, failcb))
         ps, ex = paths_of(f)
         ctx.need(not ex.truncated, '%s: too many paths' % fname)
         seen = set()
@@ -568,6 +584,10 @@ def deck_manager_rules(ctx):
     dis = D.method('disconnect')
     called = sorted(norm(c.func)[5:] for c in walk_own(dis.node) if isinstance(c, ast.Call) and norm(c.func).startswith('self._clear_'))
     ctx.inst('R10', dis, 'disconnect-forgets-all', called == sorted(clears), 'disconnect forgets all three records; calls %s' % called)
+    from .c02 import disconnect_listener_rules
+    disconnect_listener_rules(ctx, 'R4')      # Memory._disconnected is reached: no listener before it raises out of its own clean-up (shared with C02.R2)
+    from .c07 import caller_rules
+    caller_rules(ctx, 'R4')      # 'exactly one notification' is delivered through Caller.call: every listener is told, also when an earlier one un-registers itself (shared with C07.R2)
 
 
 VARIANTS = [
